@@ -228,6 +228,10 @@ def solve_exact_cover(
         Result with solution (tuple of row indices) or list of solutions if find_all
     """
     if not matrix:
+        secondary_names = set(secondary) if secondary else set()
+        if columns and any(name not in secondary_names for name in columns):
+            # No rows, but a declared primary column would have to be covered
+            return Result(None, 0, 0, 0, Status.INFEASIBLE)
         return Result([()], 1, 0, 0) if find_all else Result((), 0, 0, 0)
 
     root, _, _ = _build_links(matrix, columns, secondary)
